@@ -1,13 +1,24 @@
 //! C12: hedge. script = [max, mode, ncalls, nd, d_1 .. d_nd, (op a b)*]
-//!   mode 0 = HedgeDelay::Fixed(d_1 ms)  1 = Immediate  2 = Dynamic(|k| d_k ms, 0 beyond nd)
-//!   op 1 Poll i | 2 Drop i | 3 Advance a ms | 4 Complete a b   (a = 16*i + k: attempt k of call i;
-//!   b: 0 ok, 1 err, 2 panic; the value carried by ok/err is a)
-//! Call i is made with request value i on its own clone of the hedge service, so attempt k of
-//! call i is the k-th inner call with request i.
-//! trace per event = [r, v, ns, wake mask, in-flight, now_ms]
+//!   mode mod 4: 0 (or 3) = HedgeDelay::Fixed(d_1 ms)  1 = Immediate  2 = Dynamic(|k| d_k ms, 0 beyond nd)
+//!   (mode / 4) mod 2 = 1: gated readiness — every CLONE of the inner service is not ready until
+//!   the script says so (the instance the caller polled ready, used by the primary, is ready)
+//!   op 1 Poll i | 2 Drop i | 3 Advance a ms | 4 Complete a b (a = 16*i + n: the n-th inner call
+//!   made for call i; b: 0 ok, 1 err, 2 panic; the value carried by ok/err is a)
+//!   | 5 Ready a (a = 16*i + k: the clone used by hedge attempt k of call i becomes ready)
+//! Call i is made with request value i on its own hedge service (same layer, same shared inner
+//! service state), so the n-th inner call of call i is the n-th inner call with request i.
+//! Hedge attempt k of call i is the k-th clone of call i's inner service that is asked for
+//! readiness (attempt tasks run in spawn order and ask for readiness first).
+//! trace per event = [r, v, ns, nl, wake mask, in-flight, now_ms]
 //!   r: -1 no poll, 0 pending, 1 Ok(v), 2 Err(Inner(v)), 3 Err(AllAttemptsFailed(v)), 5 panicked,
 //!      9 nothing to poll;  ns = sum over calls i of (inner calls started for request i during
-//!      this event, including the settle after it) * 32^i
+//!      this event, including the settle after it) * 32^i;  nl = same for hedge attempts
+//!      launched (clones that asked for readiness for the first time)
+use std::collections::HashMap;
+use std::future::Future;
+use std::pin::Pin;
+use std::sync::{Arc, Mutex};
+use std::task::{Context, Poll, Waker};
 use std::time::Duration;
 use tower::{Layer, Service};
 use tower_resilience_hedge::{HedgeError, HedgeLayer};
@@ -15,9 +26,69 @@ use verif_harness::*;
 
 type Res = Result<i128, HedgeError<i128>>;
 
+#[derive(Default)]
+struct RShared {
+    gated: bool,
+    ready: Mutex<HashMap<(i128, u32), bool>>,
+    wakers: Mutex<HashMap<(i128, u32), Waker>>,
+    asked: Mutex<HashMap<i128, u32>>,
+    /// lineage (= call index) of every clone that asked for readiness for the first time
+    asks: Mutex<Vec<i128>>,
+}
+
+/// GatedInner plus scripted readiness of clones. `lineage` = index of the hedged call the
+/// instance was built for; the instance built by the harness is the `original`.
+struct RInner {
+    g: GatedInner,
+    sh: Arc<RShared>,
+    lineage: i128,
+    original: bool,
+    slot: Option<u32>,
+}
+
+impl Clone for RInner {
+    fn clone(&self) -> Self {
+        RInner { g: self.g.clone(), sh: self.sh.clone(), lineage: self.lineage, original: false, slot: None }
+    }
+}
+
+impl Service<i128> for RInner {
+    type Response = i128;
+    type Error = i128;
+    type Future = Pin<Box<dyn Future<Output = Result<i128, i128>> + Send>>;
+    fn poll_ready(&mut self, cx: &mut Context<'_>) -> Poll<Result<(), i128>> {
+        if self.original {
+            return Poll::Ready(Ok(()));
+        }
+        let slot = match self.slot {
+            Some(s) => s,
+            None => {
+                let mut a = self.sh.asked.lock().unwrap();
+                let e = a.entry(self.lineage).or_insert(0);
+                *e += 1;
+                self.slot = Some(*e);
+                self.sh.asks.lock().unwrap().push(self.lineage);
+                *e
+            }
+        };
+        let key = (self.lineage, slot);
+        if !self.sh.gated || self.sh.ready.lock().unwrap().get(&key).copied().unwrap_or(false) {
+            Poll::Ready(Ok(()))
+        } else {
+            self.sh.wakers.lock().unwrap().insert(key, cx.waker().clone());
+            Poll::Pending
+        }
+    }
+    fn call(&mut self, req: i128) -> Self::Future {
+        self.g.call(req)
+    }
+}
+
 fn run(s: &[i128]) -> Vec<i128> {
     let max = zn(s, 0).clamp(0, 16) as usize;
-    let mode = zn(s, 1);
+    let mode_raw = zn(s, 1).clamp(0, 7);
+    let mode = mode_raw % 4;
+    let gated = (mode_raw / 4) % 2 == 1;
     let ncalls = zn(s, 2).clamp(0, 4) as usize;
     let nd = zn(s, 3).clamp(0, 16) as usize;
     let ds: Vec<u64> = (0..nd).map(|j| zn(s, 4 + j).clamp(0, 100_000) as u64).collect();
@@ -26,6 +97,7 @@ fn run(s: &[i128]) -> Vec<i128> {
     rt.block_on(async move {
         let inner = GatedInner::new();
         let sh = inner.0.clone();
+        let rsh = Arc::new(RShared { gated, ..Default::default() });
         let mut b = HedgeLayer::builder().max_hedged_attempts(max);
         b = match mode {
             1 => b.no_delay(),
@@ -37,7 +109,7 @@ fn run(s: &[i128]) -> Vec<i128> {
             }
             _ => b.delay(Duration::from_millis(ds.first().copied().unwrap_or(0))),
         };
-        let base = b.build().layer(inner);
+        let layer = b.build();
         let mut callers: Vec<Option<Manual<Res>>> = (0..ncalls).map(|_| None).collect();
         let mut created = vec![false; ncalls];
         let mut tr = Vec::new();
@@ -48,13 +120,15 @@ fn run(s: &[i128]) -> Vec<i128> {
             let mut r: i128 = -1;
             let mut v: i128 = 0;
             sh.take_starts();
+            rsh.asks.lock().unwrap().clear();
             match op {
                 1 | 2 => {
                     if a < 0 || a as usize >= ncalls { continue; }
                     let i = a as usize;
                     if !created[i] {
                         created[i] = true;
-                        let mut svc = base.clone();
+                        let orig = RInner { g: inner.clone(), sh: rsh.clone(), lineage: i as i128, original: true, slot: None };
+                        let mut svc = layer.layer(orig);
                         futures::future::poll_fn(|cx| svc.poll_ready(cx)).await.ok();
                         callers[i] = Some(Manual::new(svc.call(i as i128)));
                     }
@@ -84,6 +158,13 @@ fn run(s: &[i128]) -> Vec<i128> {
                     if (i as usize) >= ncalls { continue; }
                     sh.complete(i, k, match b { 0 => Outcome::Ok(a), 1 => Outcome::Err(a), _ => Outcome::Panic });
                 }
+                5 => {
+                    if a < 0 { continue; }
+                    let (i, k) = (a / 16, (a % 16) as u32);
+                    if (i as usize) >= ncalls { continue; }
+                    rsh.ready.lock().unwrap().insert((i, k), true);
+                    if let Some(w) = rsh.wakers.lock().unwrap().remove(&(i, k)) { w.wake(); }
+                }
                 _ => continue,
             }
             settle().await;
@@ -91,11 +172,15 @@ fn run(s: &[i128]) -> Vec<i128> {
             for (req, _) in sh.take_starts() {
                 if req >= 0 && (req as usize) < ncalls { ns += 1i128 << (5 * req as u32); }
             }
+            let mut nl: i128 = 0;
+            for lin in rsh.asks.lock().unwrap().drain(..) {
+                if lin >= 0 && (lin as usize) < ncalls { nl += 1i128 << (5 * lin as u32); }
+            }
             let mut mask: i128 = 0;
             for (j, c) in callers.iter().enumerate() {
                 if let Some(m) = c { if m.alive() && m.woken() { mask += 1i128 << j; } }
             }
-            tr.extend([r, v, ns, mask, sh.inflight() as i128, ((now_ns() - t_base) / 1_000_000) as i128]);
+            tr.extend([r, v, ns, nl, mask, sh.inflight() as i128, ((now_ns() - t_base) / 1_000_000) as i128]);
         }
         tr
     })
